@@ -170,6 +170,19 @@ func derivedFrom(v ssa.Value, srcs map[ssa.Value]bool, depth int) bool {
 		return derivedFrom(x.Tuple, srcs, depth-1)
 	case *ssa.UnOp:
 		return derivedFrom(x.X, srcs, depth-1)
+	case *ssa.FieldAddr:
+		return derivedFrom(x.X, srcs, depth-1)
+	case *ssa.Field:
+		return derivedFrom(x.X, srcs, depth-1)
+	case *ssa.Alloc:
+		// a local struct filled from the source
+		if x.Referrers() != nil {
+			for _, r := range *x.Referrers() {
+				if st, ok := r.(*ssa.Store); ok && st.Addr == x && derivedFrom(st.Val, srcs, depth-1) {
+					return true
+				}
+			}
+		}
 	case *ssa.Call:
 		// min/max builtins select one of their operands
 		if bi, ok := x.Call.Value.(*ssa.Builtin); ok && (bi.Name() == "min" || bi.Name() == "max") {
